@@ -183,3 +183,71 @@ def _mk_get_info(n):
 
 for _n in (0, 1, 2, 3):
     _mk_get_info(_n)
+
+
+# ================================================================================================== the two actions (top of every chain)
+# ls_action: installs the two naming routines - safe names first, export names second - resolves the path and prints what the item
+# reports; a path that does not resolve (ErrorInvalidPath) is ANSWERED - its message printed - never raised (C10).
+# export_samples_to_wav: the same naming table, an export manager rooted at exactly the directory given (C06) whose only sample routine
+# is the image's own combine_stereo_routine (C05; the CDDA image overrides it with the identity), then one walk over the tree.
+A_ = "smpl_extract.actions:"
+_IMG = ("obj", "smpl_extract.structural:Image", {"_routines": ("cdict", {}), "_children": ("const", None), "_f_realize_children": ("drop",)})
+
+
+@contract(A_ + "image.parse_path#abstract", abstract=True, assumed=False, note="Traversable.parse_path (under contract per path shape): the item, or ErrorInvalidPath")
+def _pp_abs(c):
+    c.param("path", "str")
+    c.returns(("obj", "ResolvedItem", {}))
+    c.raises("ErrorInvalidPath", "True")
+    c.modifies()
+
+
+@contract(A_ + "item.get_info#abstract", abstract=True, assumed=False, note="what the item reports (Traversable.get_info is under contract; leaves: itemize)")
+def _gi_abs(c):
+    c.returns(("obj", "PrintableToken", {}))
+    c.modifies()
+
+
+@contract(A_ + "info.to_string#abstract", abstract=True, assumed=True, note="rendering (InfoTable / InfoTree): some text")
+def _ts_abs(c):
+    c.returns("str")
+    c.modifies()
+
+
+@contract("builtins:print#any", abstract=True, assumed=True, note="print(x): no effect on program state")
+def _print_any(c):
+    c.param("x", ("drop",))
+    c.modifies()
+
+
+@contract(A_ + "ls_action", props=["C10", "C16"])
+def _ls(c):
+    c.param("image", _IMG)
+    c.param("path", "str")
+    c.abstract_calls = {"image.parse_path": A_ + "image.parse_path#abstract", "item.get_info": A_ + "item.get_info#abstract",
+                        "info.to_string": A_ + "info.to_string#abstract", "print": "builtins:print#any"}
+    c.use = {S + "Traversable.set_routines": "inline"}
+    # no raises clause: a path that does not resolve is answered, not raised
+    c.ensures("len(image._routines) == 2 and list(image._routines.keys())[0] == 'make_safe_names' and list(image._routines.keys())[1] == 'make_export_names'",
+              "naming-table-safe-names-first-then-export-names")
+    c.modifies("image._routines")
+
+
+@contract(A_ + "image.export_samples#abstract", abstract=True, assumed=False, note="Traversable.export_samples (under contract per level shape)")
+def _xs_abs(c):
+    c.param("export_manager", ("drop",))
+    c.modifies()
+
+
+@contract(A_ + "export_samples_to_wav", props=["C06", "C05", "C16"])
+def _xw(c):
+    c.param("image", _IMG)
+    c.param("base_dir", "str")
+    c.abstract_calls = {"image.export_samples": A_ + "image.export_samples#abstract"}
+    c.use = {S + "Traversable.set_routines": "inline", S + "ExportManager.__init__": "inline"}
+    c.ensures("len(image._routines) == 2 and list(image._routines.keys())[0] == 'make_safe_names' and list(image._routines.keys())[1] == 'make_export_names'",
+              "naming-table-safe-names-first-then-export-names")
+    c.ensures("export_manager.output_directory == base_dir", "the-manager-is-rooted-at-exactly-the-directory-given")
+    c.ensures("len(export_manager.routines) == 1 and list(export_manager.routines.keys())[0] == 'combine_stereo'", "one-sample-routine-the-image's-stereo-pairing")
+    c.ensures("len(export_manager.samples) == 0", "starts-with-an-empty-batch")
+    c.modifies("image._routines")
